@@ -29,6 +29,10 @@ class C09(RecorderProp):
             if run['run'] == 'play' and any(k != 'get' for k, _ in r['log']):
                 fails.append('run %d: a replay created / saved / aborted a recording (recorder was recording while replaying): %r'
                              % (i, r['log']))
+        for i, r in enumerate(impl):
+            if '_result_at_end' in r and r['_result_at_end'] != r['result']:
+                fails.append('run %d: the Playback handed out by this replay changed when later runs happened: it was %r, at the '
+                             'end of the history it reads %r' % (i, r['result'], r['_result_at_end']))
         probe = rs.impl_public([impl[-1]])[0]
         if probe != impl[-1]['_fresh_probe']:
             diff = [k for k in probe if probe[k] != impl[-1]['_fresh_probe'].get(k)]
